@@ -234,3 +234,151 @@ func (x *Value) Load() any {
 	return x.v.Load()
 }
 func (x *Value) Store(v any) { simcore.Yield(simcore.KStore, uintptr(unsafe.Pointer(x))); x.v.Store(v) }
+
+// ---- the rest of the go1.23 sync/atomic surface (a changed tree may use any of it) ----
+
+func SwapInt64(addr *int64, v int64) int64 {
+	simcore.Yield(simcore.KStore, uintptr(unsafe.Pointer(addr)))
+	return atomic.SwapInt64(addr, v)
+}
+func SwapUint64(addr *uint64, v uint64) uint64 {
+	simcore.Yield(simcore.KStore, uintptr(unsafe.Pointer(addr)))
+	return atomic.SwapUint64(addr, v)
+}
+func SwapUintptr(addr *uintptr, v uintptr) uintptr {
+	simcore.Yield(simcore.KStore, uintptr(unsafe.Pointer(addr)))
+	return atomic.SwapUintptr(addr, v)
+}
+func AddUintptr(addr *uintptr, d uintptr) uintptr {
+	simcore.Yield(simcore.KAdd, uintptr(unsafe.Pointer(addr)))
+	return atomic.AddUintptr(addr, d)
+}
+func AndInt32(addr *int32, m int32) int32 {
+	simcore.Yield(simcore.KAdd, uintptr(unsafe.Pointer(addr)))
+	return atomic.AndInt32(addr, m)
+}
+func AndUint32(addr *uint32, m uint32) uint32 {
+	simcore.Yield(simcore.KAdd, uintptr(unsafe.Pointer(addr)))
+	return atomic.AndUint32(addr, m)
+}
+func AndInt64(addr *int64, m int64) int64 {
+	simcore.Yield(simcore.KAdd, uintptr(unsafe.Pointer(addr)))
+	return atomic.AndInt64(addr, m)
+}
+func AndUint64(addr *uint64, m uint64) uint64 {
+	simcore.Yield(simcore.KAdd, uintptr(unsafe.Pointer(addr)))
+	return atomic.AndUint64(addr, m)
+}
+func AndUintptr(addr *uintptr, m uintptr) uintptr {
+	simcore.Yield(simcore.KAdd, uintptr(unsafe.Pointer(addr)))
+	return atomic.AndUintptr(addr, m)
+}
+func OrInt32(addr *int32, m int32) int32 {
+	simcore.Yield(simcore.KAdd, uintptr(unsafe.Pointer(addr)))
+	return atomic.OrInt32(addr, m)
+}
+func OrUint32(addr *uint32, m uint32) uint32 {
+	simcore.Yield(simcore.KAdd, uintptr(unsafe.Pointer(addr)))
+	return atomic.OrUint32(addr, m)
+}
+func OrInt64(addr *int64, m int64) int64 {
+	simcore.Yield(simcore.KAdd, uintptr(unsafe.Pointer(addr)))
+	return atomic.OrInt64(addr, m)
+}
+func OrUint64(addr *uint64, m uint64) uint64 {
+	simcore.Yield(simcore.KAdd, uintptr(unsafe.Pointer(addr)))
+	return atomic.OrUint64(addr, m)
+}
+func OrUintptr(addr *uintptr, m uintptr) uintptr {
+	simcore.Yield(simcore.KAdd, uintptr(unsafe.Pointer(addr)))
+	return atomic.OrUintptr(addr, m)
+}
+
+func (x *Bool) Swap(b bool) bool {
+	simcore.Yield(simcore.KStore, uintptr(unsafe.Pointer(x)))
+	return x.v.Swap(b)
+}
+func (x *Int32) Swap(n int32) int32 {
+	simcore.Yield(simcore.KStore, uintptr(unsafe.Pointer(x)))
+	return x.v.Swap(n)
+}
+func (x *Int32) And(m int32) int32 {
+	simcore.Yield(simcore.KAdd, uintptr(unsafe.Pointer(x)))
+	return x.v.And(m)
+}
+func (x *Int32) Or(m int32) int32 {
+	simcore.Yield(simcore.KAdd, uintptr(unsafe.Pointer(x)))
+	return x.v.Or(m)
+}
+func (x *Int64) Swap(n int64) int64 {
+	simcore.Yield(simcore.KStore, uintptr(unsafe.Pointer(x)))
+	return x.v.Swap(n)
+}
+func (x *Int64) And(m int64) int64 {
+	simcore.Yield(simcore.KAdd, uintptr(unsafe.Pointer(x)))
+	return x.v.And(m)
+}
+func (x *Int64) Or(m int64) int64 {
+	simcore.Yield(simcore.KAdd, uintptr(unsafe.Pointer(x)))
+	return x.v.Or(m)
+}
+func (x *Uint32) Swap(n uint32) uint32 {
+	simcore.Yield(simcore.KStore, uintptr(unsafe.Pointer(x)))
+	return x.v.Swap(n)
+}
+func (x *Uint32) And(m uint32) uint32 {
+	simcore.Yield(simcore.KAdd, uintptr(unsafe.Pointer(x)))
+	return x.v.And(m)
+}
+func (x *Uint32) Or(m uint32) uint32 {
+	simcore.Yield(simcore.KAdd, uintptr(unsafe.Pointer(x)))
+	return x.v.Or(m)
+}
+func (x *Uint64) Swap(n uint64) uint64 {
+	simcore.Yield(simcore.KStore, uintptr(unsafe.Pointer(x)))
+	return x.v.Swap(n)
+}
+func (x *Uint64) And(m uint64) uint64 {
+	simcore.Yield(simcore.KAdd, uintptr(unsafe.Pointer(x)))
+	return x.v.And(m)
+}
+func (x *Uint64) Or(m uint64) uint64 {
+	simcore.Yield(simcore.KAdd, uintptr(unsafe.Pointer(x)))
+	return x.v.Or(m)
+}
+
+type Uintptr struct{ v atomic.Uintptr }
+
+func (x *Uintptr) Load() uintptr {
+	simcore.Yield(simcore.KLoad, uintptr(unsafe.Pointer(x)))
+	return x.v.Load()
+}
+func (x *Uintptr) Store(n uintptr) {
+	simcore.Yield(simcore.KStore, uintptr(unsafe.Pointer(x)))
+	x.v.Store(n)
+}
+func (x *Uintptr) Swap(n uintptr) uintptr {
+	simcore.Yield(simcore.KStore, uintptr(unsafe.Pointer(x)))
+	return x.v.Swap(n)
+}
+func (x *Uintptr) Add(d uintptr) uintptr {
+	simcore.Yield(simcore.KAdd, uintptr(unsafe.Pointer(x)))
+	return x.v.Add(d)
+}
+func (x *Uintptr) CompareAndSwap(o, n uintptr) bool {
+	simcore.Yield(simcore.KCAS, uintptr(unsafe.Pointer(x)))
+	return cas(x.v.CompareAndSwap(o, n))
+}
+
+func (x *Pointer[T]) Swap(p *T) *T {
+	simcore.Yield(simcore.KStore, uintptr(unsafe.Pointer(x)))
+	return x.v.Swap(p)
+}
+func (x *Value) Swap(v any) any {
+	simcore.Yield(simcore.KStore, uintptr(unsafe.Pointer(x)))
+	return x.v.Swap(v)
+}
+func (x *Value) CompareAndSwap(o, n any) bool {
+	simcore.Yield(simcore.KCAS, uintptr(unsafe.Pointer(x)))
+	return cas(x.v.CompareAndSwap(o, n))
+}
